@@ -150,11 +150,15 @@ pub fn units(tier: Tier, seed: u64) -> Vec<Unit> {
         cfgs.extend(configs(2, c, seed + c as u64, true));
     }
     cfgs.extend(configs(3, 1, seed, tier == Tier::Thorough));
+    if tier == Tier::Thorough {
+        cfgs.extend(configs(3, 2, seed + 1, true));
+        cfgs.extend(configs(3, 0, seed + 2, true));
+    }
     for mut cfg in cfgs {
         // every party has a destination here: the notification rule is what is being checked
         let n = cfg.n();
         cfg.outputs = (0..n).map(|p| (seed as usize + p) % 4 != 3).collect();
-        let scripts: Vec<Vec<usize>> = tier.pick(vec![vec![], vec![1, 1]], vec![vec![], vec![1, 1], vec![0, 1, 0, 1], vec![1, 0, 2]]);
+        let scripts: Vec<Vec<usize>> = tier.pick(vec![vec![], vec![1, 1]], vec![vec![], vec![1, 1], vec![0, 1, 0, 1], vec![1, 0, 2], vec![0, 1], vec![1, 0, 1, 1], vec![0, 0, 1], vec![1, 2, 0, 1]]);
         for script in scripts {
             for target in 0..n {
                 v.push(Unit { cfg: cfg.clone(), script: script.clone(), target });
